@@ -71,3 +71,76 @@ fn c13_bytewise_successor_ge_3() {
 fn c13_bytewise_successor_ge_4() {
 	successor_ge::<4>();
 }
+
+/// encoded internal key in a fixed array: user key (<= 2 bytes) || trailer (seq << 8 | kind, BE) || timestamp (BE)
+fn any_encoded() -> ([u8; 18], usize, u64, u64) {
+	let uk: [u8; 2] = kani::any();
+	let ul: usize = kani::any();
+	kani::assume(ul <= 2);
+	let seq: u64 = kani::any();
+	kani::assume(seq <= crate::INTERNAL_KEY_SEQ_NUM_MAX);
+	let kind: u8 = kani::any();
+	kani::assume(kind <= 7);
+	let ts: u64 = kani::any();
+	let trailer = (seq << 8) | kind as u64;
+	let mut buf = [0u8; 18];
+	let mut i = 0;
+	while i < ul {
+		buf[i] = uk[i];
+		i += 1;
+	}
+	let tb = trailer.to_be_bytes();
+	let sb = ts.to_be_bytes();
+	let mut j = 0;
+	while j < 8 {
+		buf[ul + j] = tb[j];
+		buf[ul + 8 + j] = sb[j];
+		j += 1;
+	}
+	(buf, ul + 16, seq, ts)
+}
+
+/// C13-O5: the internal order every table, block and merge relies on:
+/// InternalKeyComparator::compare = (user key ascending, then sequence number DESCENDING), total and
+/// antisymmetric, for all user keys <= 2 bytes, all 56-bit sequence numbers, all kinds and timestamps.
+#[kani::proof]
+#[kani::unwind(10)]
+fn c13_internal_order_is_userkey_asc_seq_desc() {
+	let (a, la, sa, _ta) = any_encoded();
+	let (b, lb, sb, _tb) = any_encoded();
+	let (ea, eb) = (&a[..la], &b[..lb]);
+	let c = InternalKeyComparator::new(Arc::new(BytewiseComparator {}));
+	let got = c.compare(ea, eb);
+	let (ua, ub) = (&a[..la - 16], &b[..lb - 16]);
+	let want = match ua.cmp(ub) {
+		Ordering::Equal => sb.cmp(&sa),
+		o => o,
+	};
+	assert!(got == want, "internal order is not (user key asc, seq desc)");
+	assert!(c.compare(eb, ea) == want.reverse(), "internal order is not antisymmetric");
+	// the zero-copy accessors agree with the encoding
+	assert!(InternalKey::seq_num_from_encoded(ea) == sa && InternalKey::user_key_from_encoded(ea) == ua);
+	kani::cover!(ua == ub && sa > sb && got == Ordering::Less, "newer version sorts first");
+	kani::cover!(ua < ub && sa < sb, "user key dominates the sequence number");
+	core::mem::forget(c);
+}
+
+/// C13-O5b: TimestampComparator::compare = (user key ascending, then timestamp DESCENDING)
+#[kani::proof]
+#[kani::unwind(10)]
+fn c13_timestamp_order_is_userkey_asc_ts_desc() {
+	let (a, la, _sa, ta) = any_encoded();
+	let (b, lb, _sb, tb) = any_encoded();
+	let (ea, eb) = (&a[..la], &b[..lb]);
+	let c = TimestampComparator::new(Arc::new(BytewiseComparator {}));
+	let got = c.compare(ea, eb);
+	let (ua, ub) = (&a[..la - 16], &b[..lb - 16]);
+	let want = match ua.cmp(ub) {
+		Ordering::Equal => tb.cmp(&ta),
+		o => o,
+	};
+	assert!(got == want, "timestamp order is not (user key asc, timestamp desc)");
+	kani::cover!(ua == ub && ta > tb && got == Ordering::Less, "newer timestamp sorts first");
+	kani::cover!(ua != ub, "different user keys");
+	core::mem::forget(c);
+}
